@@ -2,7 +2,7 @@ import os
 ID = 'C06'
 LEVEL = 'proof'
 CONTRACT_MODULES = ['contracts.evals', 'contracts.binary']
-CONE = ['csep.core.poisson_evaluations._simulate_catalog', 'csep.core.poisson_evaluations._poisson_likelihood_test', 'csep.core.poisson_evaluations.conditional_likelihood_test', 'csep.core.poisson_evaluations.spatial_test', 'csep.core.poisson_evaluations.magnitude_test',
+CONE = ['csep.core.poisson_evaluations._simulate_catalog', 'csep.core.poisson_evaluations._poisson_likelihood_test', 'csep.core.poisson_evaluations.likelihood_test', 'csep.core.poisson_evaluations.conditional_likelihood_test', 'csep.core.poisson_evaluations.spatial_test', 'csep.core.poisson_evaluations.magnitude_test',
         'csep.core.binomial_evaluations._simulate_catalog', 'csep.core.brier_evaluations._simulate_catalog',
         'csep.core.binomial_evaluations._binary_likelihood_test', 'csep.core.brier_evaluations._brier_score_test',
         'csep.core.binomial_evaluations.binary_spatial_test', 'csep.core.binomial_evaluations.binary_conditional_likelihood_test',
